@@ -30,12 +30,12 @@ KINDS = ["null", "mem", "disk", "cnull", "cmem", "cdisk"]
 ACTIONS = ["Contains", "Rmv", "GetSet", "Release", "SetDir", "SetDirBad", "BadKey", "NewObject", "Foreign", "Litter"]
 OPNAME = {"in": "Contains", "rmv": "Rmv", "getset": "GetSet", "release": "Release", "setdir": "SetDir", "setdirbad": "SetDirBad",
           "badkey": "BadKey", "newobj": "NewObject", "foreign": "Foreign", "litter": "Litter"}
-GUARDS = [("keep_partial", "mem", {}, {"NoPartial", "FailLeavesNothing"}),
-          ("overwrite", "mem", {}, {"KeepOnHit", "Consistent"}),
-          ("null_stores", "null", {}, {"NullEmpty"}),
-          ("shared_entry", "disk", {}, {"IndependentKeys"}),
-          ("wrong_release", "cmem", {"Args <- ArgsFew": "Args <- ArgsHold", "Ops <- OpsMap": "Ops <- OpsUse", "Keys <- K2": "Keys <- K3"}, {"LocksBalanced"}),
-          ("leak_on_braise", "cdisk", {"Args <- ArgsFew": "Args <- ArgsUses", "Ops <- OpsMap": "Ops <- OpsUse"}, {"LocksBalanced"})]
+GUARDS = [("keep_partial", "KMem", {}, {"NoPartial", "FailLeavesNothing"}),
+          ("overwrite", "KMem", {}, {"KeepOnHit", "Consistent"}),
+          ("null_stores", "KNull", {}, {"NullEmpty"}),
+          ("shared_entry", "KDisk", {}, {"IndependentKeys"}),
+          ("wrong_release", "KCmem", {"Args <- ArgsFew": "Args <- ArgsHold", "Ops <- OpsMap": "Ops <- OpsUse", "Keys <- K2": "Keys <- K3"}, {"LocksBalanced"}),
+          ("leak_on_braise", "KCdisk", {"Args <- ArgsFew": "Args <- ArgsUses", "Ops <- OpsMap": "Ops <- OpsUse"}, {"LocksBalanced"})]
 _COV = re.compile(r"^<(\w+) line \d+, col \d+ to line \d+, col \d+ of module CacheMap(?: \([\d ]+\))?>: (\d+):(\d+)")
 
 
@@ -138,14 +138,22 @@ class Replay:
         self.home = os.path.join(base, "home")
         self.dirs = {"d1": os.path.join(base, "c1", "sub"), "d2": "~/c2"}
         self.real = {"d1": self.dirs["d1"], "d2": os.path.join(self.home, "c2")}
-        self.table = RecList(65536)
+        self.table = RecList(65536 if self.conc else 1)
         self.hs = []; self.calls = 0; self.gens = []
         self.litter = {"d1": set(), "d2": set()}
         self.fresh()
         self.inner_obj = self._new(self.dirs["d1"])
 
     def fresh(self):
-        for p in (os.path.join(self.base, "c1"), self.home): shutil.rmtree(p, ignore_errors=True)
+        """empty directories; every 8th history starts with directories that do not exist yet (removing a directory is the slow part)"""
+        if not self.disk: return
+        if self.salt % 8 == 0:
+            for p in (os.path.join(self.base, "c1"), self.home): shutil.rmtree(p, ignore_errors=True)
+        else:
+            for d in self.real.values():
+                for nm in (os.listdir(d) if os.path.isdir(d) else ()):
+                    p = os.path.join(d, nm)
+                    shutil.rmtree(p) if os.path.isdir(p) else os.remove(p)
         os.makedirs(self.home, exist_ok=True)
 
     def _new(self, d):
@@ -239,7 +247,7 @@ class Replay:
             elif op == "badkey":
                 bk = BADKEYS[(self.salt + i) % len(BADKEYS)]; self.lastbad = bk
                 if w == "in": ret = bk in c
-                elif w == "rmv": c.rmv(bk)
+                elif w == "rmv": ret = c.rmv(bk)
                 else:
                     g, _ = self.getter("fn_list", ["x"], 0)
                     with c.get_set(bk, g) as v: list(v)
@@ -273,8 +281,13 @@ class Replay:
             if x in ("E", "K") and raised is not exc_obj: return ("raises:%s" % type(raised).__name__, "raised %s: %s instead of the getter's own exception" % (type(raised).__name__, str(raised)[:120]))
             if x == "B" and raised is not self.body_exc: return ("raises:%s" % type(raised).__name__, "raised %s: %s instead of the exception of the with-body" % (type(raised).__name__, str(raised)[:120]))
             if x == "err" and not isinstance(raised, Exception): return ("raises:%s" % type(raised).__name__, "raised %s" % type(raised).__name__)
+            if x == "badkey" and len(self.lastbad) > 255:
+                # longer than a file name can be: the OS's own error is accepted, and so is "not there" for `in` / rmv
+                if raised is None and (w == "getset" or ret not in (False, None)): return ("no-raise:badkey", "the over-long key gave %r" % (ret,))
+                if raised is not None and not isinstance(raised, (C.CobaException, OSError)): return ("raises:%s" % type(raised).__name__, "the over-long key raised %s: %s" % (type(raised).__name__, str(raised)[:100]))
+                return None
             if x == "badkey":
-                okc = (C.CobaException, OSError) if len(self.lastbad) > 200 else (C.CobaException,)
+                okc = (C.CobaException,)
                 if not isinstance(raised, okc): return ("raises:%s" % type(raised).__name__, "the key %r raised %s: %s instead of CobaException" % (self.lastbad, type(raised).__name__, str(raised)[:100]))
         else:
             if raised is not None and not isinstance(raised, Exception): return ("raises:%s" % type(raised).__name__, "raised %s" % type(raised).__name__)
@@ -306,6 +319,13 @@ class Replay:
     # ---- the whole map through the public interface, the directories, the lock table ----
     def probe(self, post):
         C = self.C; c = self.c; cur = post["cur"]; self.cur = cur
+        if self.conc:
+            want = {}
+            for k, rk in self.keys.items():
+                if k in post["files"][cur]: want[slot_of(rk)] = post["arr"][self.slotname(k)]
+            for ix in self.table.touched:
+                if self.table[ix] != want.get(ix, 0):
+                    return ("locks", "lock table entry %d holds %d, the spec says %d (open handles: %d)" % (ix, self.table[ix], want.get(ix, 0), len(post["hs"])))
         for k, e in post["files"][cur].items():
             rk = self.keys[k]
             try:
@@ -334,13 +354,6 @@ class Replay:
                 want = {fname_of(self.keys[k], self.base) for k, e in ents.items() if e["t"] != "absent"} | (self.litter[d] if d in post["litter"] else set())
                 if have != want:
                     return ("listing", "directory %s holds %r, the spec's entries are %r" % (d, sorted(have - want)[:4] and ("in excess " + repr(sorted(have - want)[:4])) or ("missing " + repr(sorted(want - have)[:4])), sorted(want)[:6]))
-        if self.conc:
-            want = {}
-            for k, rk in self.keys.items():
-                if k in post["files"][cur]: want[slot_of(rk)] = post["arr"][self.slotname(k)]
-            for ix in self.table.touched:
-                if self.table[ix] != want.get(ix, 0):
-                    return ("locks", "lock table entry %d holds %d, the spec says %d (open handles: %d)" % (ix, self.table[ix], want.get(ix, 0), len(post["hs"])))
         if len(self.hs) != len(post["hs"]): raise AssertionError("driver lost a handle")
         return None
 
@@ -412,37 +425,36 @@ def show(h): return "; ".join(show_step(s) for s in h)
 
 
 # ------------------------------------------------------------------ configurations
+KSETS = {"KAll": KINDS, "KMems": ["null", "mem", "cnull", "cmem"], "KDisks": ["disk", "cdisk"], "KConcs": ["cnull", "cmem", "cdisk"],
+         "KUses": ["mem", "cnull", "cmem", "cdisk"], "KHold2": ["cnull", "cmem"], "KHold3": ["mem", "disk", "cdisk"]}
+
+
 def configs(ctx):
     q = ctx.quick
     C = []
-    def add(name, kinds, keys, slot, args, ops, n, handles=2, sim=None, depth=None):
-        for kind in kinds:
-            C.append(dict(name="%s-%s" % (kind, name), conf=name, kind=kind, slot=slot, sim=sim, depth=n,
-                          sub={'Kind = "mem"': 'Kind = "%s"' % kind, "Keys <- K2": "Keys <- %s" % keys, "Slot <- SlotColl": "Slot <- %s" % slot,
-                               "Args <- ArgsFew": "Args <- %s" % args, "Ops <- OpsMap": "Ops <- %s" % ops, "MaxOps = 3": "MaxOps = %d" % n,
-                               "MaxHandles = 2": "MaxHandles = %d" % handles}))
-    mem = ["null", "mem", "cnull", "cmem"]; dsk = ["disk", "cdisk"]; conc = ["cnull", "cmem", "cdisk"]
+    def add(name, kinds, keys, slot, args, ops, n, handles=2, sim=None):
+        C.append(dict(name="%s-%s" % (name, kinds), kinds=KSETS[kinds], slot=slot, sim=sim, depth=n,
+                      sub={"Kinds <- KMem": "Kinds <- %s" % kinds, "Keys <- K2": "Keys <- %s" % keys, "Slot <- SlotColl": "Slot <- %s" % slot,
+                           "Args <- ArgsFew": "Args <- %s" % args, "Ops <- OpsMap": "Ops <- %s" % ops, "MaxOps = 3": "MaxOps = %d" % n,
+                           "MaxHandles = 2": "MaxHandles = %d" % handles}))
     if q:
-        add("values", KINDS, "K2", "SlotDist", "ArgsValues", "OpsPut", 2)
-        add("few", mem, "K2", "SlotDist", "ArgsFew", "OpsMap", 3)
-        add("few", dsk, "K2", "SlotDist", "ArgsFew", "OpsPut", 3)
-        add("uses", ["mem"] + conc, "K2", "SlotColl", "ArgsUses", "OpsUse", 3)
-        add("hold", ["cnull", "cmem"], "K3", "SlotColl", "ArgsHold", "OpsUse", 4)
-        add("hold", ["disk", "cdisk"], "K2", "SlotColl", "ArgsHold", "OpsUse", 4)
-        add("env", dsk, "K2", "SlotDist", "ArgsEnv", "OpsEnv", 3)
-        add("sim", mem, "K3", "SlotColl", "ArgsAll", "OpsAll", 6, sim=60)
-        add("sim", dsk, "K3", "SlotColl", "ArgsAll", "OpsAll", 6, sim=40)
+        add("values", "KAll", "K2", "SlotDist", "ArgsValues", "OpsPut", 2)
+        add("few", "KMems", "K2", "SlotDist", "ArgsFew", "OpsPut", 3)
+        add("few", "KDisks", "K2", "SlotDist", "ArgsFewQ", "OpsPut", 3)
+        add("uses", "KUses", "K2", "SlotColl", "ArgsUsesQ", "OpsUse", 3)
+        add("hold", "KConcs", "K3", "SlotColl", "ArgsHold", "OpsUse", 3)
+        add("env", "KDisks", "K1", "SlotDist", "ArgsEnvQ", "OpsEnv", 3)
+        add("sim", "KAll", "K3", "SlotColl", "ArgsAll", "OpsAll", 6, sim=300)
     else:
-        add("values", KINDS, "K2", "SlotDist", "ArgsValues", "OpsMap", 3)
-        add("few", mem, "K3", "SlotDist", "ArgsFew", "OpsMap", 4)
-        add("few", dsk, "K2", "SlotDist", "ArgsFew", "OpsMap", 4)
-        add("uses", KINDS, "K2", "SlotColl", "ArgsUses", "OpsUse", 4)
-        add("hold", ["cnull", "cmem"], "K3", "SlotColl", "ArgsHold", "OpsUse", 5)
-        add("hold", ["mem", "disk", "cdisk"], "K3", "SlotColl", "ArgsHold", "OpsUse", 4)
-        add("env", dsk, "K2", "SlotDist", "ArgsEnv", "OpsEnv", 4)
-        add("sim", mem, "K3", "SlotColl", "ArgsAll", "OpsAll", 6, sim=1500)
-        add("sim", dsk, "K3", "SlotColl", "ArgsAll", "OpsAll", 6, sim=1200)
-        add("sim8", conc, "K3", "SlotColl", "ArgsUses", "OpsAll", 8, handles=3, sim=400)
+        add("values", "KAll", "K2", "SlotDist", "ArgsValues", "OpsMap", 3)
+        add("few", "KMems", "K3", "SlotDist", "ArgsFew", "OpsMap", 4)
+        add("few", "KDisks", "K2", "SlotDist", "ArgsFew", "OpsMap", 4)
+        add("uses", "KAll", "K2", "SlotColl", "ArgsUses", "OpsUse", 4)
+        add("hold", "KHold2", "K3", "SlotColl", "ArgsHold", "OpsUse", 5)
+        add("hold", "KHold3", "K3", "SlotColl", "ArgsHold", "OpsUse", 4)
+        add("env", "KDisks", "K2", "SlotDist", "ArgsEnv", "OpsEnv", 4)
+        add("sim", "KAll", "K3", "SlotColl", "ArgsAll", "OpsAll", 6, sim=2500)
+        add("sim8", "KConcs", "K3", "SlotColl", "ArgsUses", "OpsAll", 8, handles=3, sim=600)
     return C
 
 
@@ -452,7 +464,8 @@ SLOTS = {"SlotColl": {"k1": "s1", "k2": "s1", "k3": "s2"}, "SlotDist": {"k1": "s
 # ------------------------------------------------------------------ replaying a batch (in a forked worker)
 def replay_batch(job):
     """job = (kind, slotcfg, base dir, [(index, history, partner history)], seed) -> dict(cases, viol=[(sig, what, replay)])"""
-    kind, slotcfg, base, items, corrupt = job
+    kind, slotcfg, base, items, quick = job
+    t0 = time.time()
     import coba.context.cachers as CM
     from coba.exceptions import CobaException
     C = type("C", (), dict(NullCacher=CM.NullCacher, MemoryCacher=CM.MemoryCacher, DiskCacher=CM.DiskCacher, ConcurrentCacher=CM.ConcurrentCacher, CobaException=CobaException))
@@ -472,7 +485,7 @@ def replay_batch(job):
             if bad:
                 out["viol"].append((bad[0], "%s, keys %s: %s   history: %s" % (kind, _short(keys), bad[1], show(h[:bad[2]])), replay)); continue
             # the same OBJECT serves a second history, and (a part) the first again
-            rounds = [("second", partner)] + ([("first-again", h)] if idx % 4 == 0 else [])
+            rounds = ([("second", partner)] if (idx % 2 == 0 or not quick) else []) + ([("first-again", h)] if idx % 8 == 0 else [])
             for nm, h2 in rounds:
                 bad = rp.cleanup()
                 if bad:
@@ -498,6 +511,7 @@ def replay_batch(job):
         CM.time = old_time
         if old_home is None: os.environ.pop("HOME", None)
         else: os.environ["HOME"] = old_home
+    out["wall"] = time.time() - t0
     return out
 
 
@@ -513,12 +527,12 @@ def run(ctx):
     def tlc_job(job):
         name, sub, sim, depth = job
         cfg = tracecheck._cfg("CacheMap.cfg", sub, ctx.scratch, "cm_%s.cfg" % name)
-        if name.startswith("guard-"): return name, tlc.run("MC_CacheMap", cfg, ctx.scratch, workers=1, timeout=900, heap="2g", continue_=True)
+        if name.startswith("guard-"): return name, tlc.run("MC_CacheMap", cfg, ctx.scratch, workers=1, timeout=900, heap="1g", continue_=True)
         if sim: return name, tlc.run("MC_CacheMap", cfg, ctx.scratch, workers=2, timeout=1500, heap="3g", simulate=dict(num=sim), depth=depth + 1, seed=ctx.seed, coverage=True)
-        return name, tlc.run("MC_CacheMap", cfg, ctx.scratch, workers=2, timeout=1500, heap="4g", coverage=True)
+        return name, tlc.run("MC_CacheMap", cfg, ctx.scratch, workers=ctx.pick(2, 3), timeout=3000, heap="6g", coverage=True)
     jobs = [(c["name"], c["sub"], c["sim"], c["depth"]) for c in CF]
     for g, kind, sub, _ in GUARDS:
-        s = dict(sub); s['Variant = "ok"'] = 'Variant = "%s"' % g; s['Kind = "mem"'] = 'Kind = "%s"' % kind
+        s = dict(sub); s['Variant = "ok"'] = 'Variant = "%s"' % g; s["Kinds <- KMem"] = "Kinds <- %s" % kind; s["MaxOps = 3"] = "MaxOps = 2"
         jobs.append(("guard-" + g, s, None, 0))
     with ThreadPoolExecutor(max_workers=4) as ex:
         results = dict(ex.map(tlc_job, jobs))
@@ -538,17 +552,19 @@ def run(ctx):
             m = _COV.match(ln)
             if m and m.group(1) in cov: cov[m.group(1)] += int(m.group(3))
         seen = {}
-        for h in r.json:
-            if isinstance(h, list) and h and isinstance(h[0], dict) and "op" in h[0] and len(h) == c["depth"]:
-                seen.setdefault(json.dumps([(s["op"], s["k"], s["a"], s["w"]) for s in h], sort_keys=True), h)
-        H = [seen[k] for k in sorted(seen)]
-        if len(H) < 20: raise RuntimeError("CacheMap %s produced only %d histories" % (c["name"], len(H)))
-        hists[c["name"]] = H
+        for j in r.json:
+            if isinstance(j, dict) and "kind" in j and isinstance(j.get("h"), list) and len(j["h"]) == c["depth"]:
+                h = j["h"]
+                seen.setdefault((j["kind"], json.dumps([(s["op"], s["k"], s["a"], s["w"]) for s in h], sort_keys=True)), h)
+        for kind in c["kinds"]:
+            H = [seen[k] for k in sorted(seen) if k[0] == kind]
+            if len(H) < 20: raise RuntimeError("CacheMap %s produced only %d histories for %s" % (c["name"], len(H), kind))
+            hists[(c["name"], kind)] = H
         if not c["sim"]: ctx.exhaustive = True if ctx.exhaustive is None else ctx.exhaustive
     missing = [a for a in ACTIONS if cov[a] == 0]
     if missing: raise RuntimeError("vacuous: actions never taken by TLC: %s" % missing)
     ctx.extra["tlc_action_coverage"] = cov
-    ctx.extra["histories"] = {k: len(v) for k, v in hists.items()}
+    ctx.extra["histories"] = {"%s:%s" % k: len(v) for k, v in hists.items()}
 
     # ---- 2. every history on the real cacher of its kind ----
     # the value table of the spec travels inside the histories: a get_set step carries the lines of its value (`vl`)
@@ -556,40 +572,41 @@ def run(ctx):
     replayed_ops = {a: 0 for a in ACTIONS}
     nb = 0
     for c in CF:
-        H = hists[c["name"]]
+      for kind in c["kinds"]:
+        H = hists[(c["name"], kind)]
         partner = H[:]; rng.shuffle(partner)
         items = []
         for idx, h in enumerate(H):
-            for s in h:
-                replayed_ops[OPNAME[s["op"]]] += 1
+            for s in h: replayed_ops[OPNAME[s["op"]]] += 1
             items.append((idx, h, partner[idx]))
-            ctx.case((c["name"], show(h)))
-        size = 400 if c["kind"] in ("disk", "cdisk") else 1500
+            ctx.case((c["name"], kind, show(h)))
+        size = 250 if kind in ("disk", "cdisk") else 1500
         for j in range(0, len(items), size):
             nb += 1
-            batches.append((c, (c["kind"], c["slot"], os.path.join(ctx.scratch, "w%d" % nb), items[j:j + size], None)))
+            batches.append(("%s:%s" % (c["name"], kind), (kind, c["slot"], os.path.join(ctx.scratch, "w%d" % nb), items[j:j + size], ctx.quick)))
         mid = H[len(H) // 2]
-        ctx.sample(dict(config=c["name"], history=show(mid), expected=[(s["obs"]["r"], s["obs"]["x"], s["obs"]["lines"]) for s in mid]), limit=10)
+        ctx.sample(dict(config=c["name"], kind=kind, history=show(mid), expected=[(s["obs"]["r"], s["obs"]["x"], s["obs"]["lines"]) for s in mid]), limit=10)
     unexercised = [a for a in ACTIONS if replayed_ops[a] == 0]
     if unexercised: raise RuntimeError("vacuous: actions never replayed: %s" % unexercised)
     ctx.extra["replayed_steps_per_action"] = replayed_ops
     for b in batches: os.makedirs(b[1][2], exist_ok=True)
-    for kind, slotcfg in sorted({(c["kind"], c["slot"]) for c in CF}): key_renderings(kind, slotcfg)      # observed once, inherited by the workers
+    for kind, slotcfg in sorted({(k, c["slot"]) for c in CF for k in c["kinds"]}): key_renderings(kind, slotcfg)      # observed once, inherited by the workers
     mpctx = mp.get_context("fork")
     with mpctx.Pool(8) as pool:
         outs = pool.map(replay_batch, [b[1] for b in batches], chunksize=1)
-    total = 0
-    for (c, job), o in zip(batches, outs):
-        total += o["cases"]
+    total = 0; walls = {}
+    for (cname, job), o in zip(batches, outs):
+        total += o["cases"]; walls[cname] = round(walls.get(cname, 0) + o["wall"], 2)
         for sig, what, replay in o["viol"]:
-            ctx.violation(sig, what, dict(replay, config=c["name"]))
+            ctx.violation(sig, what, dict(replay, config=cname))
     ctx.traces += total
     ctx.evaluations = total
     ctx.extra["replays"] = total
+    ctx.extra["replay_cpu_seconds"] = walls
 
     # ---- 3. the binding is not vacuous: one field of one generated history corrupted must be noticed ----
-    c0 = next(c for c in CF if c["kind"] == "disk" and c["conf"] == "values")
-    h = next(h for h in hists[c0["name"]] if h[0]["op"] == "getset" and h[0]["obs"]["r"] == "ok" and h[0]["obs"]["lines"] and h[-1]["op"] == "getset")
+    c0 = next(c for c in CF if c["name"].startswith("values"))
+    h = next(h for h in hists[(c0["name"], "disk")] if h[0]["op"] == "getset" and h[0]["obs"]["r"] == "ok" and h[0]["obs"]["lines"] and h[-1]["op"] == "getset")
     bad_h = json.loads(json.dumps(h)); bad_h[0]["obs"]["lines"] = bad_h[0]["obs"]["lines"][:-1] + ["corrupted"]
     bad_h2 = json.loads(json.dumps(h)); bad_h2[0]["post"]["files"]["d1"][h[0]["k"]] = {"t": "absent", "v": []}
     os.makedirs(os.path.join(ctx.scratch, "wc"), exist_ok=True)
